@@ -170,6 +170,12 @@ def q1(facts, tier):
              ("diff_schema skips the remaining comparisons on a condition that looks at one operand only (" +
               "; ".join(f"arm {x['arm']}: {x['cond']}" for x in short[:2]) + "): a difference on the other side goes unreported") if short
              else "no accepting shortcut is taken on a one-sided condition")
+    skip = [x for fs in tab.arms.values() for x in fs if x["kind"] == "skipping-shortcut"]
+    yield ob(props, "Q1", "no-shortcut-past-a-comparison", "violation" if skip else "pass", where(f),
+             ("diff_schema leaves early with 'no difference' on a condition that does not look at " +
+              "; ".join(f"{', '.join(x['skipped'][:3])} (arm {x['arm']})" for x in skip[:2]) +
+              ", and thereby skips the comparison of exactly that fact: two schemas that differ only there compare as identical") if skip
+             else "every accepting shortcut is taken on a condition that covers, on both operands, every fact whose comparison it skips")
     bad = sorted({(arm, p) for arm, p in ex.cond_paths if any(x in DIFF_FORBIDDEN for x in p[-1:]) or
                   (len(p) >= 2 and p[-1] == "name" and "fields" in p) or p[-1] == "Vector.1" or "schema_string.0" in p[-1]})
     if bad:
@@ -275,6 +281,12 @@ def q3(facts, tier):
     yield ob(P, "Q3", "no-one-sided-shortcut", "violation" if short else "pass", where(f),
              ("layout_compatible answers yes early on a one-sided condition: " + "; ".join(f"arm {x['arm']}: {x['cond']}" for x in short[:2])) if short
              else "no accepting shortcut is taken on a one-sided condition")
+    skip = [x for fs in tab.arms.values() for x in fs if x["kind"] == "skipping-shortcut"]
+    yield ob(P, "Q3", "no-shortcut-past-a-comparison", "violation" if skip else "pass", where(f),
+             ("layout_compatible answers yes early on a condition that does not look at " +
+              "; ".join(f"{', '.join(x['skipped'][:3])} (arm {x['arm']})" for x in skip[:2]) +
+              " and thereby skips the comparison of that fact") if skip
+             else "every accepting shortcut is taken on a condition that covers, on both operands, every fact whose comparison it skips")
     known = set(LAYOUT_REQUIRED) | set(LAYOUT_LITERAL_REJECT) | set(LAYOUT_LITERAL_ACCEPT)
     for arm in sorted(set(tab.arms) - known):
         fs = tab.arms[arm]
